@@ -95,6 +95,16 @@ check("C11", "exploration",
       "reference decoder from gitformat-index; stat fields modulo git's 32-bit truncation; git 2.39.5; sha256 repositories not covered (index code is sha1-only)",
       "DESIGN.md §5 C11")
 
+check("C02", "exploration",
+      "runtime differential monitor: packs/indexes produced by the real writers (and by the reader-side indexers) are walked byte by byte by an independent pack/idx reader, read back through Pack/PackData/PackInflater/add_thin_pack, and cross-checked with git index-pack --strict / verify-pack / show-index / pack-objects",
+      "Generated object sets (size-varint and 64 KiB boundaries, similar-blob families for delta chains, all types) through every writer x "
+      "deltify x window x ofs/ref x compression x idx v1/v2/v3; indexes rebuilt by PackData.create_index and DiskObjectStore.add_pack over "
+      "zlib-slice-boundary sweeps; synthetic 64-bit offset tables; git packs with chains to depth 50, idx v1/v2, thin packs through "
+      "add_thin_pack, stored-delta reuse via write_pack_from_container; SHA-256 through a sha256 repository's object store. Decides the "
+      "property on the inputs generated.",
+      "vt.ref.packfmt validated on git-written packs each run; byte identity with git's idx only for v2/SHA-1; delta choices never compared; the low-level writers' returned entry table is SHA-1 keyed, so SHA-256 is driven through the object store (the supported path)",
+      "DESIGN.md §5 C02")
+
 ALL = ["C%02d" % i for i in range(1, 21)]
 
 
